@@ -1,16 +1,37 @@
 import SF.Props.C07
+import SF.Lemmas.Rsi
+import SF.Lemmas.MyRsi
 /-
   C05 — RSI family equals gains/losses over the N most recent changes.
   `Spec.rsi` / `Spec.myRsi` ARE the statement's formulas (d_0 = 0, G / L over the last N changes, 100 when L = 0, hold
-  while G + L = 0).  Proved here, on those definitions, for every N and every history: the consequences the property
-  lists (monotone windows, negation symmetry, ranges).  The equality "state machine = Spec" (the incremental
-  avg_gain/avg_loss, cu/cd bookkeeping with `old_ref` / `oldest_val`) is decided by `./check C05` in exact arithmetic
-  (implementation at Q vs these specs, and implementation vs model); its Lean proof is `rsi_eq_partial` in DESIGN.md.
+  while G + L = 0).  `rsi_eq` / `myrsi_eq`: the incremental state machines (avg_gain / avg_loss resp. cu / cd with the
+  `old_ref` / `oldest_val` / `last_val` bookkeeping) report exactly those formulas, for every N ≥ 1 and every history, at
+  every step.  The remaining theorems are the consequences the property lists, proved on the definitions: negation
+  symmetry, monotone windows, formula, ranges.
 -/
 namespace SF.C05
 open SF SF.Spec
 set_option linter.unusedSectionVars false
 variable {α : Type} [Field α] [LinearOrder α] [IsStrictOrderedRing α] [FloatLike α] [ExactScalar α]
+
+/-- **Rsi's state machine equals the statement's formula.** For every N ≥ 1 and every history (ties, monotone runs, spikes
+entering and leaving the window, flat stretches after volatile ones), at every step: the incrementally maintained
+`avg_gain`, `avg_loss` (with `old_ref` / `last_val` bookkeeping) are G/N and L/N over exactly the N most recent changes, and
+the reported value is 100·G/(G+L), 100 when L = 0, nothing before the N-th value. -/
+theorem rsi_eq (N : Nat) (hN : 0 < N) (xs : List α) :
+    (rsiCore (α := α) N).outAfter xs = .ok (Spec.rsi N xs) := Rsi.outAfter_eq N hN xs
+
+/-- **MyRSI's state machine equals the statement's formula**: `cu`, `cd` are G and L over exactly the N most recent
+changes; the output is (G−L)/(G+L), the previous output (initially 0) being kept while G+L = 0; from the N-th value on. -/
+theorem myrsi_eq (N : Nat) (hN : 0 < N) (xs : List α) :
+    (myRsiCore (α := α) N).outAfter xs = .ok (Spec.myRsi N xs) := MyRsi.outAfter_eq N hN xs
+
+/-- the hold rule of the definition, unfolded one step -/
+theorem myrsi_hold_step (N : Nat) (xs : List α) (x : α) :
+    Spec.myRsiHold N (xs ++ [x]) =
+      (if Spec.gains N (xs ++ [x]) + Spec.losses N (xs ++ [x]) = 0 then Spec.myRsiHold N xs
+       else (Spec.gains N (xs ++ [x]) - Spec.losses N (xs ++ [x])) / (Spec.gains N (xs ++ [x]) + Spec.losses N (xs ++ [x]))) :=
+  MyRsi.myRsiHold_snoc N xs x
 
 /-- changes of the negated stream are the negated changes -/
 theorem changes_neg (xs : List α) : changes (xs.map fun x => -x) = (changes xs).map fun d => -d := by
